@@ -76,6 +76,7 @@ class CompiledFunction:
     global_vars: List[str] = field(
         default_factory=list
     )  # Names declared with var by a program (exist, undefined, from its start)
+    is_arrow: bool = False  # arrow function: `this` is the one of the enclosing code
 
 
 @dataclass
@@ -1278,6 +1279,7 @@ class Compiler:
             free_vars=self._free_vars[:],
             cell_vars=self._cell_vars[:],
             source_map=self.source_map,
+            is_arrow=True,
         )
 
         # Pop outer scope if we pushed it
